@@ -41,12 +41,13 @@ type scidCase struct {
 	Upload int    // bytes the client uploads (>= ~20 MB forces rotations beyond the first)
 	Down   int    // bytes the server sends back
 	Probe  string // "" | probe | probe-close  (client AddPath on a second transport)
+	Retry  bool   // the server validates the address with a Retry (Transport.VerifySourceAddress)
 	Early  bool   // close right after the handshake, while the client's original destination ID still waits for its expiry
 	RTT    time.Duration
 }
 
 func (c scidCase) String() string {
-	return fmt.Sprintf("seed=%d client=%s cause=%s upload=%d down=%d probe=%q early=%v rtt=%s", c.Seed, c.Client, c.Cause, c.Upload, c.Down, c.Probe, c.Early, c.RTT)
+	return fmt.Sprintf("seed=%d client=%s cause=%s upload=%d down=%d probe=%q retry=%v early=%v rtt=%s", c.Seed, c.Client, c.Cause, c.Upload, c.Down, c.Probe, c.Retry, c.Early, c.RTT)
 }
 
 var scidCauses = []string{"cli-close", "srv-close", "idle", "cli-transport-close", "srv-transport-close"}
@@ -57,12 +58,14 @@ type scidRecorder struct {
 	retSent  map[uint64][]int64 // RETIRE_CONNECTION_ID sequence number -> packet numbers that carried it
 	newRecv  map[uint64]int     // NEW_CONNECTION_ID sequence number -> times received
 	newSent  map[uint64]int
+	newSentIDs map[string]bool // connection IDs carried by the NEW_CONNECTION_ID frames it sent
 	retRecv  map[uint64]int
 	nSent1RT int
+	lastEvent int64 // monotime of the last packet this endpoint sent or received (its run loop ran then)
 }
 
 func newScidRecorder() *scidRecorder {
-	return &scidRecorder{retSent: map[uint64][]int64{}, newRecv: map[uint64]int{}, newSent: map[uint64]int{}, retRecv: map[uint64]int{}}
+	return &scidRecorder{retSent: map[uint64][]int64{}, newRecv: map[uint64]int{}, newSent: map[uint64]int{}, retRecv: map[uint64]int{}, newSentIDs: map[string]bool{}}
 }
 func (r *scidRecorder) AddProducer() qlogwriter.Recorder { return r }
 func (r *scidRecorder) SupportsSchemas(string) bool     { return true }
@@ -70,6 +73,10 @@ func (r *scidRecorder) Close() error                    { return nil }
 func (r *scidRecorder) RecordEvent(e qlogwriter.Event) {
 	r.mu.Lock()
 	defer r.mu.Unlock()
+	switch e.(type) {
+	case qlog.PacketSent, qlog.PacketReceived:
+		r.lastEvent = quic.ConnidsVerifMonoNow()
+	}
 	switch x := e.(type) {
 	case qlog.PacketSent:
 		if x.Header.PacketType == qlog.PacketType1RTT {
@@ -81,6 +88,7 @@ func (r *scidRecorder) RecordEvent(e qlogwriter.Event) {
 				r.retSent[fr.SequenceNumber] = append(r.retSent[fr.SequenceNumber], int64(x.Header.PacketNumber))
 			case *qlog.NewConnectionIDFrame:
 				r.newSent[fr.SequenceNumber]++
+				r.newSentIDs[string(fr.ConnectionID.Bytes())] = true
 			}
 		}
 	case qlog.PacketReceived:
@@ -146,6 +154,9 @@ func runOneSimConnIDs(c scidCase) (fails []monFail, info string) {
 				Tracer: func(context.Context, bool, quic.ConnectionID) qlogwriter.Trace { return recs[1] }},
 			ClientConf: &quic.Config{MaxIdleTimeout: idle,
 				Tracer: func(context.Context, bool, quic.ConnectionID) qlogwriter.Trace { return recs[0] }},
+		}
+		if c.Retry {
+			o.SrvTr = func(t *quic.Transport) { t.VerifySourceAddress = func(net.Addr) bool { return true } }
 		}
 		if c.Client == "plain" {
 			o.PlainPath = true
@@ -214,6 +225,62 @@ func runOneSimConnIDs(c scidCase) (fails []monFail, info string) {
 		everHeld := [2]map[uint64]bool{{0: true}, {0: true}}
 		maxRotations := [2]uint64{}
 		wireDup := map[string]bool{}
+		var hsTime int64
+
+		// the destination connection IDs the client itself chose during the handshake, read off the
+		// wire: DCIDs of its long-header packets that are not IDs issued by the server (the original
+		// one and, after a Retry, the Retry source connection ID), in order of first use
+		wireHandshakeDCIDs := func() (ids [][]byte, nRetry int) {
+			// what the server issued, also from the wire: the source connection ID of its (non-Retry)
+			// long-header packets and the IDs in the NEW_CONNECTION_ID frames it sent
+			serverIssued := map[string]bool{}
+			recs[1].mu.Lock()
+			for k := range recs[1].newSentIDs {
+				serverIssued[k] = true
+			}
+			recs[1].mu.Unlock()
+			e.Router.mu.Lock()
+			defer e.Router.mu.Unlock()
+			isRetry := func(b []byte) bool {
+				return (b[0]&0x30)>>4 == 3 && b[1] == 0 && b[2] == 0 && b[3] == 0 && b[4] == 1 // QUIC v1
+			}
+			for _, d := range e.Router.log {
+				b := d.Data
+				if d.Dir != 1 || len(b) < 7 || b[0]&0x80 == 0 {
+					continue
+				}
+				if isRetry(b) {
+					nRetry++
+					continue
+				}
+				dl := int(b[5])
+				if len(b) < 7+dl {
+					continue
+				}
+				sl := int(b[6+dl])
+				if len(b) >= 7+dl+sl {
+					serverIssued[string(b[7+dl:7+dl+sl])] = true
+				}
+			}
+			seenID := map[string]bool{}
+			for _, d := range e.Router.log {
+				b := d.Data
+				if d.Dir != 0 || len(b) < 7 || b[0]&0x80 == 0 {
+					continue
+				}
+				l := int(b[5])
+				if l == 0 || len(b) < 6+l {
+					continue
+				}
+				id := b[6 : 6+l]
+				if serverIssued[string(id)] || seenID[string(id)] {
+					continue
+				}
+				seenID[string(id)] = true
+				ids = append(ids, append([]byte{}, id...))
+			}
+			return
+		}
 
 		// ---- the monitors of one observation point ----
 		observe := func(label string, closedPhase bool) {
@@ -265,11 +332,24 @@ func runOneSimConnIDs(c scidCase) (fails []monFail, info string) {
 						}
 					}
 					// retired IDs whose grace period is over should be gone (removed lazily by the run loop)
-					late := 0
+					// removal is lazy: the run loop drops expired IDs when it iterates. If it has handled a
+					// packet after the expiry the ID must be gone; on a connection that has been silent since,
+					// nothing wakes the loop (known finding simconnids/idle-expired-still-routed)
+					recs[x].mu.Lock()
+					lastEv := recs[x].lastEvent
+					recs[x].mu.Unlock()
+					late, lateIdle := 0, 0
 					for _, t := range vx.Gen.RetireTimes {
 						if t <= vx.Now-int64(2*time.Second) {
-							late++
+							if lastEv > t+int64(100*time.Millisecond) {
+								late++
+							} else {
+								lateIdle++
+							}
 						}
+					}
+					if lateIdle > 0 {
+						fail("idle-expired-still-routed", fmt.Sprintf("%s: %d retired connection IDs are still routed more than 2 s after their expiry; the connection has been silent since, nothing wakes the run loop to remove them", who, lateIdle))
 					}
 					for i, t := range vx.Gen.RetireTimes {
 						if t > vx.Now+int64(5*time.Second) { // 3 PTO is well below 5 s in every scenario here
@@ -278,6 +358,40 @@ func runOneSimConnIDs(c scidCase) (fails []monFail, info string) {
 					}
 					if late > 0 {
 						fail("expired-still-routed", fmt.Sprintf("%s: %d retired connection IDs are still routed more than 2 s after their expiry", who, late))
+					}
+					if vx.Server {
+						// independent of the generator's own record: what the client really used as DCID
+						hs, nRetry := wireHandshakeDCIDs()
+						if c.Retry && (nRetry == 0 || len(hs) < 2) {
+							note("retry scenario: %d Retry packets, %d client-chosen handshake DCIDs on the wire", nRetry, len(hs))
+						}
+						if len(hs) == 0 {
+							fail("wire", who+": no client-chosen destination connection ID found on the wire")
+						}
+						got := scidSet(own)
+						if label == "handshake-complete" {
+							// the ID the client used last (after a Retry: the Retry source connection ID) is what
+							// the server registered; it is routed until 3 PTO after handshake completion
+							if len(hs) > 0 && !got[string(hs[len(hs)-1])] {
+								fail("handshake-dcid-unrouted", fmt.Sprintf("%s: the destination connection ID %x the client used for its Initial is not routed", who, hs[len(hs)-1]))
+							}
+							for _, id := range hs[:max(len(hs)-1, 0)] {
+								if got[string(id)] {
+									fail("handshake-dcid-kept", fmt.Sprintf("%s: the pre-Retry destination connection ID %x is routed", who, id))
+								}
+							}
+						} else if vx.Now-hsTime >= int64(7*time.Second) {
+							// 7 s after the handshake: far beyond 3 PTO
+							for _, id := range hs {
+								if got[string(id)] {
+									if lastEv > hsTime+int64(6*time.Second) {
+										fail("handshake-dcid-kept", fmt.Sprintf("%s: the client's handshake destination connection ID %x (read off the wire) is still routed %s after handshake completion although the connection has been active since", who, id, time.Duration(vx.Now-hsTime)))
+									} else {
+										fail("idle-expired-still-routed", fmt.Sprintf("%s: the client's handshake destination connection ID %x is still routed %s after handshake completion on a silent connection", who, id, time.Duration(vx.Now-hsTime)))
+									}
+								}
+							}
+						}
 					}
 					if vx.Server && vx.HandshakeComplete && vx.Gen.HasInitial && label != "handshake-complete" {
 						fail("initial-dcid-kept", fmt.Sprintf("%s: the client's original destination connection ID %x is still routed (not even scheduled for removal) long after handshake completion", who, vx.Gen.InitialClient))
@@ -392,11 +506,14 @@ func runOneSimConnIDs(c scidCase) (fails []monFail, info string) {
 
 		<-cl.HandshakeComplete()
 		<-srv.HandshakeComplete()
+		hsTime = quic.ConnidsVerifMonoNow()
 		time.Sleep(3 * c.RTT)
 		observe("handshake-complete", false)
 		if !c.Early {
 			time.Sleep(2 * time.Second) // past 3 PTO: the client's original destination ID expires at the server
 			observe("after-grace", false)
+			time.Sleep(5 * time.Second) // 7 s after the handshake: beyond any plausible 3 PTO + lazy removal
+			observe("long-after-handshake", false)
 		}
 
 		// ---- transfer (rotation needs PacketsPerConnectionID/2 .. 3/2 packets per rotation) ----
@@ -546,6 +663,7 @@ func runSimConnIDs(w *bufio.Writer, seed uint64, n int, args []string) {
 		if i%4 == 2 {
 			c.Early, c.Upload, c.Down = true, 0, 0
 		}
+		c.Retry = i%3 == 1 // plain and spec-driven clients alike
 		if only >= 0 && i != only {
 			continue
 		}
